@@ -3,6 +3,7 @@ package main
 import (
 	"fmt"
 	"go/types"
+	"math/big"
 )
 
 // region describes one contiguous element transfer of a path.
@@ -74,9 +75,10 @@ func checkC03(c *Checker) {
 	c.rule("C03-R1", "branch term: in place exactly when cap >= len(dst)+len(src) (same storage, len grows by len(src), no reallocation); otherwise append grows into new storage", 2)
 	c.rule("C03-R2", "copy region: dst.data[len0(dst)+i] <- src.data[i], 0 <= i < len0(src); no other element store; the source is not written", 2)
 	c.rule("C03-R3", "alias safety (self-append): no use of the source's len/cap after the destination header was replaced", 2)
-	c.rule("C03-R4", "capacity: the only other header effect trims cap to c - c mod channels (never larger than c)", 1)
+	c.rule("C03-R4", "capacity: the only other header effect trims cap to c - c mod channels (never larger than c, and implied to be at least the new length)", 1)
 	c.Assumptions = append(c.Assumptions, "Go specification: append beyond capacity allocates new storage and copies the prefix; reflect.Value.SetCap sets the capacity of the addressed slice",
-		"sources overlapping the destination's spare capacity are excluded by the quantifier (other than the destination itself)")
+		"sources overlapping the destination's spare capacity are excluded by the quantifier (other than the destination itself)",
+		"frame alignment (quantifier): len(dst.data) and len(src.data) are multiples of the channel count; lemma used: for m >= 1, m | l and c >= l imply c - c mod m >= l")
 	fn := c.anchor("C03-R1", "(*Buffer[D]).Append")
 	if fn == nil {
 		return
@@ -100,9 +102,17 @@ func checkC03(c *Checker) {
 		c.undecided("C03-R1", "Buffer.Append", c.pos(fn.Pos()), "cannot resolve Buffer fields")
 		return
 	}
-	nIn, nGrow := 0, 0
+	nIn, nGrow, nLemma := 0, 0, 0
 	for _, o := range retPaths(s) {
 		if !feasible(o, assume) {
+			continue
+		}
+		// a path on which the capacity trim is skipped because it would cut into the length cannot be taken
+		// by frame-aligned buffers (the quantifier): floor-to-a-multiple of a capacity that holds a whole
+		// number of frames still holds them
+		if why := alignedInfeasible(factsWith(o.St.facts, assume), dst, src); why != "" {
+			nLemma++
+			c.Extra["C03 path excluded by frame alignment"] = why
 			continue
 		}
 		var which string
@@ -188,29 +198,42 @@ func checkC03(c *Checker) {
 			c.refuted("C03-R3", inst, c.effPos(hz[0]), fmt.Sprintf("%d uses of a possibly stale source header; first: %s", len(hz), hz[0].Note),
 				"b.Append(b) on a non-empty buffer: the loop bound doubles after dst.data was replaced")
 		}
-		// capacity trim
-		sc := effectsOf(o, ESetCap)
+		// capacity trim: judged on the final header, however the capacity was set (reflect SetCap or a
+		// three-index slice expression)
 		okCap := true
-		capDetail := "no SetCap"
-		for _, e := range sc {
-			cur := e.Dst.Cap
-			w1 := normInt(cur).Sub(polyAtom(canon(&Term{Op: OpRem, Typ: intT, Args: []*Term{cur, dst.ch()}})))
-			w2 := polyAtom(canon(&Term{Op: OpDiv, Typ: intT, Args: []*Term{cur, dst.ch()}})).Mul(normInt(dst.ch()))
-			got := normInt(e.N)
-			if e.Note != "SetCap" || !(got.Equal(w1) || got.Equal(w2)) {
+		capDetail := ""
+		fa := factsWith(o.St.facts, assume)
+		got := normInt(data.Cap)
+		var base *Poly // capacity of the storage the data lives in
+		if which == "in-place" {
+			base = normInt(dst.capT())
+		} else if len(grows) == 1 {
+			base = normInt(&Term{Op: OpAtom, Name: "cap(" + grows[0].Stor.Name + ")", Typ: intT})
+		}
+		if base == nil || data.Cap == nil {
+			okCap, capDetail = false, "final capacity unresolved"
+		} else {
+			bt := base.toTerm()
+			w1 := base.Sub(polyAtom(canon(&Term{Op: OpRem, Typ: intT, Args: []*Term{bt, dst.ch()}})))
+			w2 := polyAtom(canon(&Term{Op: OpDiv, Typ: intT, Args: []*Term{bt, dst.ch()}})).Mul(normInt(dst.ch()))
+			capDetail = "final capacity " + pretty(canon(data.Cap))
+			switch {
+			case got.Equal(w1) || got.Equal(w2):
+				if !fa.impliesGE0(got.Sub(newLen)) && floorMultipleGE0(fa, got.Sub(newLen), dst, src) == "" {
+					okCap = false
+					capDetail += " is not implied to be at least the new length " + newLen.String()
+				}
+			case got.Equal(base):
 				okCap = false
+				capDetail = "capacity " + pretty(canon(data.Cap)) + " is not trimmed to a whole number of frames"
+			default:
+				okCap = false
+				capDetail += " is not cap - cap mod channels of the storage capacity " + base.String()
 			}
-			capDetail = "SetCap(" + pretty(canon(e.N)) + ")"
 		}
-		if which == "grow" && len(sc) == 0 {
-			okCap = false
-			capDetail = "capacity after growth is not trimmed to a whole number of frames"
-		}
-		if len(sc) > 1 {
-			okCap = false
-		}
-		c.expect(okCap, "C03-R4", inst, c.pos(o.Pos), capDetail, "capacity effect is not cap - cap mod channels: "+capDetail)
+		c.expect(okCap, "C03-R4", inst, c.pos(o.Pos), capDetail, "capacity is not a whole number of frames covering the length: "+capDetail)
 	}
+	c.Extra["C03 paths excluded by the frame-alignment lemma"] = nLemma
 	if nIn == 0 {
 		c.refuted("C03-R1", "Buffer.Append/in-place", c.pos(fn.Pos()), "no path appends in place when the capacity suffices", "")
 	}
@@ -226,4 +249,89 @@ func objByName(o Outcome, name string) *Object {
 		}
 	}
 	return nil
+}
+
+// alignedInfeasible: the path carries a fact  c - c mod m < l  (equivalently m*(c/m) < l) although c >= l holds
+// on the path, m >= 1, and l is a multiple of m once the buffer lengths are written as whole frames. Returns a
+// description of the contradicted fact, or "".
+func alignedInfeasible(f *Facts, bs ...buf) string {
+	for _, fc := range f.list {
+		if fc.Kind != CGE0 || fc.P == nil {
+			continue
+		}
+		// the path says q < 0; the lemma may prove q >= 0
+		if why := floorMultipleGE0(f, fc.P.Neg().AddInt(-1), bs...); why != "" {
+			return fc.String() + " contradicts " + why
+		}
+	}
+	return ""
+}
+
+// floorMultipleGE0 proves q >= 0 for q = floor-to-multiple(a, m) - l, where m >= 1 and a >= l hold under f and
+// l is a multiple of m once the lengths of the buffers with m channels are written as whole frames.
+func floorMultipleGE0(f *Facts, q *Poly, bs ...buf) string {
+	{
+		for _, mo := range q.m {
+			var a, m *Poly
+			var mt *Term
+			switch {
+			case len(mo.factors) == 1 && mo.factors[0].Op == OpRem && mo.coef.Cmp(big.NewInt(-1)) == 0:
+				t := mo.factors[0]
+				a, m, mt = normInt(t.Args[0]), normInt(t.Args[1]), t.Args[1]
+			case len(mo.factors) == 2 && mo.coef.Cmp(big.NewInt(1)) == 0:
+				for i, t := range mo.factors {
+					if t.Op == OpDiv && canon(t.Args[1]).Key() == canon(mo.factors[1-i]).Key() {
+						a, m, mt = normInt(t.Args[0]), normInt(t.Args[1]), t.Args[1]
+					}
+				}
+			}
+			if a == nil {
+				continue
+			}
+			// q = floorMultiple(a, m) - l
+			var l *Poly
+			if len(mo.factors) == 1 {
+				l = a.Sub(polyAtom(mo.factors[0])).Sub(q)
+			} else {
+				mono := newPoly()
+				mono.addMonom(factorsKey(mo.factors), mo.coef, mo.factors)
+				l = mono.Sub(q)
+			}
+			if !f.impliesGE0(m.AddInt(-1)) || !f.impliesGE0(a.Sub(l)) {
+				continue
+			}
+			// l is a multiple of m under frame alignment (buffers whose channel count equals m on this path)
+			frames := map[string]*Term{}
+			for _, b := range bs {
+				if f.eval(Cond{Kind: CEQ0, P: normSign(normInt(b.ch()).Sub(m))}) == Yes {
+					frames[b.lenT().Name] = &Term{Op: OpMul, Typ: intT, Args: []*Term{mt, mkAtom("frames("+b.name+")", intT)}}
+				}
+			}
+			lt := normInt(l.toTerm().subst(frames))
+			mult := true
+			for _, lm := range lt.m {
+				has := false
+				for _, fac := range lm.factors {
+					if canon(fac).Key() == canon(mt).Key() {
+						has = true
+					}
+				}
+				mult = mult && has
+			}
+			if mult {
+				return fmt.Sprintf("floor-to-multiple(%s, %s) >= %s", a.String(), m.String(), l.String())
+			}
+		}
+	}
+	return ""
+}
+
+func factsWith(f, g *Facts) *Facts {
+	out := f.clone()
+	if g != nil {
+		for _, c := range g.list {
+			out.add(c)
+		}
+	}
+	return out
 }
